@@ -2,6 +2,7 @@
 #[derive(Copy, Clone)]
 pub struct NonZeroUsize { pub v: usize }
 impl NonZeroUsize {
+    pub fn new(n: usize) -> (r: Option<NonZeroUsize>) ensures match r { Some(z) => n != 0 && z.v == n, None => n == 0 } { if n == 0 { None } else { Some(NonZeroUsize { v: n }) } }
     /// a NonZeroUsize is never 0 (type invariant of std, assumed)
     #[verifier::external_body]
     pub fn get(self) -> (r: usize) ensures r == self.v, r >= 1 { unimplemented!() }
